@@ -85,7 +85,7 @@ def rule_pipeline(ctx, rid='R1'):
                              node=p.node)
                 ok = False
                 continue
-            mask = ('cmp', '!=', ('call', ('attr', labels, 'take'), (lm,), ()), newvals)
+            mask = T.mkcmp('!=', ('call', ('attr', labels, 'take'), (lm,), ()), newvals)
             anyguard = [pol for a, pol in p.guards if a == ('call', ('attr', ('name', 'np'), 'any'), (mask,), ())]
             if not anyguard:
                 ctx.violated(rid, fi, 'mismatch mask [%s]' % inst, 'the mask of missing labels must be `ax.values.take(indices) != values` with the same '
@@ -95,7 +95,7 @@ def rule_pipeline(ctx, rid='R1'):
                 continue
             missing = anyguard[0]
             rerr = [pol for a, pol in p.guards if a == RAISE]
-            mnone = [pol for a, pol in p.guards if a == ('cmp', 'is', METHOD, T.CONST_NONE)]
+            mnone = [pol for a, pol in p.guards if a == T.mkcmp('is', METHOD, T.CONST_NONE)]
             puts = [e for e in p.calls('put')]
             relabels = [e for e in p.events if e.kind == 'store_sub']
             writes_axes_values = [e for e in p.events if e.kind == 'store_sub' and e.a[0] == 'attr' and e.a[2] in ('values', '_values')]
